@@ -73,6 +73,10 @@ fn programs(kind: &str, dims: usize) -> Vec<(Prog, String, String)> {
             for c in vcore::gen03::multi_element_programs() {
                 out.push((c.prog, String::new(), c.label));
             }
+            // stores through by-reference array elements in nested calls change those elements and nothing else
+            for c in vcore::gen03::forwarding_programs().into_iter().filter(|c| c.label.contains("element")) {
+                out.push((c.prog, String::new(), c.label));
+            }
             out.push((typed_index_program(), String::new(), "typed subscripts".into()));
             out.push((implicit_index_program(), String::new(), "subscripts that are variables first used there".into()));
         }
